@@ -58,6 +58,8 @@ type schedScenario struct {
 	ExtraNames []string
 	// OnRelease is called by the scheduler right before a parked step is released
 	OnRelease func(x *schedRun, thread, label string)
+	// FailStep makes a step of a thread fail without effect (scripted fault; must be deterministic)
+	FailStep func(thread string, s world.Step, label string) bool
 }
 
 type parkedG struct {
@@ -159,10 +161,17 @@ func runSchedule(t *testing.T, b *world.Backend, sc *schedScenario, prefix []int
 				if !names[th] {
 					return nil
 				}
+				fail := sc.FailStep != nil && sc.FailStep(th, s, normLabel(s))
 				if sc.Control != nil && !sc.Control(th, s) {
+					if fail {
+						return world.ErrInjected
+					}
 					return nil
 				}
 				x.park(th, normLabel(s))
+				if fail {
+					return world.ErrInjected
+				}
 				return nil
 			})
 			x.Insts = append(x.Insts, inst)
